@@ -10,6 +10,7 @@ mod fx;
 mod duals;
 mod hols;
 mod linalg;
+mod load;
 mod rng;
 mod ser;
 mod splines;
@@ -39,10 +40,15 @@ fn run() {
         fx: fx::FxState::default(),
         splines: splines::SplineState::default(),
     };
+    let mut worker = load::Worker::new();
     for line in stdin.lock().lines() {
         let line = line.unwrap();
         let toks: Vec<&str> = line.split_ascii_whitespace().collect();
-        let ans = step(&mut st, &toks);
+        let ans = if toks.len() == 2 && (toks[0] == "loadjson" || toks[0] == "loadjsonx") {
+            worker.ask(&line)
+        } else {
+            step(&mut st, &toks)
+        };
         writeln!(out, "{}", ans).unwrap();
     }
 }
@@ -77,6 +83,9 @@ fn step(st: &mut State, toks: &[&str]) -> String {
     if let Some(a) = ser::step(&st.duals, &st.dates, &st.curves, &st.fx, &st.splines, toks) {
         return a;
     }
+    if let Some(a) = load::step(toks) {
+        return a;
+    }
     if let Some(a) = hols::step(&mut st.hols, toks) {
         return a;
     }
@@ -87,6 +96,7 @@ fn main() {
     let args: Vec<String> = std::env::args().collect();
     match args.get(1).map(|s| s.as_str()) {
         Some("run") => run(),
+        Some("jsonworker") => load::worker_main(),
         Some("gen") => {
             let prop = args[2].as_str();
             let tier = args[3].as_str();
@@ -109,6 +119,7 @@ fn main() {
                 "C17" => duals::gen_c17(&mut out, thorough, seed),
                 "C18" => duals::gen_c18(&mut out, thorough, seed),
                 "C19" => duals::gen_c19(&mut out, thorough, seed),
+                "C20" => load::gen_c20(&mut out, thorough, seed),
                 "C04" => dates::gen_c04(&mut out, thorough, seed),
                 "C05" => dates::gen_c05(&mut out, thorough, seed),
                 "C06" => dates::gen_c06(&mut out, thorough, seed),
